@@ -26,7 +26,7 @@ TRACE_INVS = {
     "C05": ["InvC05"],
     "C07": ["InvC07", "InvC01s", "InvC01x", "InvC02x", "InvC03x", "InvC04x"],
     "C10": ["InvC10"],
-    "C12": ["InvC12s", "InvC12"],
+    "C12": ["InvC12s", "InvC12", "InvC04x"],
     "C13": ["InvC13", "InvStruct"],
     "C14": ["InvC14", "InvC04x"],
     "C15": ["InvC15", "InvC04x", "InvC12"],
@@ -123,7 +123,8 @@ def classify_block(ctx, blk, inv, idx, invariants):
         left out of the batch's union (decided by TLC on the modified block), i.e. the only
         thing wrong is that the real batch accessor does not contain them."""
     evs = [json.loads(x) for x in blk]
-    inner_tl = {e["id"] for e in evs if e["ev"] == "tl" and e["b"] != 1}
+    batch_builders = {e["inner"] for e in evs if e["ev"] == "batch"}
+    inner_tl = {e["id"] for e in evs if e["ev"] == "tl" and e["b"] in batch_builders}
     if not inner_tl:
         return None
     if inv == "InvC12":
@@ -134,7 +135,7 @@ def classify_block(ctx, blk, inv, idx, invariants):
     if inv in ("InvC01s", "InvC01x", "InvC07", "InvC05"):
         mod = []
         for e in evs:
-            if e["ev"] == "tl" and e["b"] != 1:
+            if e["ev"] == "tl" and e["b"] in batch_builders:
                 e = dict(e, r=[], w=[])
             mod.append(json.dumps(e) + "\n")
         path = ctx.fresh("kf1", "ndjson")
@@ -185,6 +186,39 @@ def exec_mc(ctx, name, invs, workers=8):
                                   "exhaustive": True})
 
 
+SHRED_INVS = {"C01": ["SInvC01", "SInvNoBorrowPanic"], "C02": ["SInvC02"], "C03": ["SInvC03"], "C04": ["SInvC04"],
+              "C05": ["SInvC05", "SInvNoBorrowPanic"], "C14": ["SInvC14", "SInvC04"]}
+
+
+def exec_s2i(ctx, prop, n=3, res="{1,2}", times="{3}", maxdeps=1, w=3, panics=0, modes='{"par"}', maxforce=1500):
+    """Planner and executor composed (MCShred): the executor predicates on every plan the planner model really
+    builds; the emitted (registration sequence, eager schedule) behaviours are forced on the real dispatcher."""
+    consts = dict(planner_consts(n, res, times, maxdeps), W=w, MaxPanics=panics, ModesC=modes)
+    cfg = cfg_text(spec="SpecS", constants=consts, invariants=SHRED_INVS[prop] + ["EmitS"], extra=["VIEW ViewS"])
+    res_ = tlc_mc(ctx, "MCShred", cfg, capture_replay=True)
+    if res_["violated"]:
+        rp = ctx.save_replay("model-MCShred-%s.txt" % res_["violated"], tail(res_["out"], 300))
+        raise ToolError("the composed MODEL violates %s: to be repaired in the spec, see %s" % (res_["violated"], rp))
+    ctx.cov["states"] += res_["distinct"]
+    ctx.cov["transitions"] += res_["states"]
+    ctx.cov["model_runs"].append({"module": "MCShred", "constants": consts, "invariants": SHRED_INVS[prop],
+                                  "states_generated": res_["states"], "distinct": res_["distinct"], "wall_s": res_["wall_s"], "exhaustive": True})
+    out = ctx.fresh("sch", "ndjson")
+    st = run_bin(ctx, "exec", ["schedule", "--in", res_["replay"], "--out", out, "--seed", ctx.seed, "--max", maxforce])
+    ctx.cov["impl_runs"].append({"kind": "spec->impl TLC schedules forced on the real dispatcher", "behaviours_emitted": st["behaviours_emitted"],
+                                 "forced": st["forced"], "followed_exactly_with_equal_run_sets": st["followed_exactly"],
+                                 "runset_mismatch": st["runset_mismatch"], "deviated": st["deviated"], "layout_drift": st["layout_drift"]})
+    ctx.cov["traces_validated_against_impl"] += st["forced"]
+    if st["layout_drift"]:
+        ctx.note("model-drift: %d forced behaviours had a real plan different from the model's" % st["layout_drift"])
+    if st["runset_mismatch"] or st["deviated"]:
+        ctx.note("%d schedules not followed exactly / %d run-set mismatches (timing, work stealing): deviations are not judged; "
+                 "the recorded traces are" % (st["deviated"], st["runset_mismatch"]))
+    for x in st["samples"][:1]:
+        ctx.sample({"kind": "TLC (registration, schedule) behaviour forced on the real dispatcher", "case": x})
+    validate_blocks(ctx, "ShredTrace", out, TRACE_INVS[prop], classify=classify_block)
+
+
 def exec_scenarios(ctx, invs, progs, label):
     """Fixed programs (hand-written scenarios) run for real and validated."""
     inp = ctx.fresh("scn", "jsonl")
@@ -221,11 +255,11 @@ KF1_PROGS = [
 ]
 
 
-def planner_family(ctx, prop, mc_extra_props=()):
+def planner_family(ctx, prop, mc_extra_props=(), qdeps=2):
     invs_m = PLANNER_INVS[prop]
     invs_t = TRACE_INVS[prop]
     if ctx.quick():
-        r = planner_mc(ctx, planner_consts(3, "{1,2}", "{1,3}", 2), invs_m, label="q")
+        r = planner_mc(ctx, planner_consts(3, "{1,2}", "{1,3}", qdeps), invs_m, label="q")
         planner_s2i(ctx, r["replay"], invs_t, variants=2)
         planner_i2s(ctx, invs_t, count=40, nmin=4, nmax=40, nres=8)
         planner_i2s(ctx, invs_t, count=6, nmin=100, nmax=300, nres=14, extra=["--pbatch", 0.03], seed_off=1)
@@ -275,28 +309,32 @@ def exec_family(ctx, prop, extra=(), nopar=False, mc=("flat",), mc_thorough=(), 
 
 
 def check_C01(ctx):
-    planner_family(ctx, "C01")
+    planner_family(ctx, "C01", qdeps=1)
     exec_family(ctx, "C01", mc=("flat",), mc_thorough=("flat2", "batch", "deps"))
+    exec_s2i(ctx, "C01", maxforce=1500 if ctx.quick() else 17000)
 
 
 def check_C02(ctx):
     planner_family(ctx, "C02")
     exec_family(ctx, "C02", extra=["--pdep", 0.5], mc=("deps",), mc_thorough=("flat2",))
+    exec_s2i(ctx, "C02", maxforce=1500 if ctx.quick() else 17000)
 
 
 def check_C03(ctx):
-    planner_family(ctx, "C03")
+    planner_family(ctx, "C03", qdeps=1)
     exec_family(ctx, "C03", extra=["--pbarrier", 0.2], mc=("deps",), mc_thorough=("flat2",))
+    exec_s2i(ctx, "C03", maxforce=1500 if ctx.quick() else 17000)
 
 
 def check_C04(ctx):
-    planner_family(ctx, "C04")
+    planner_family(ctx, "C04", qdeps=1)
     exec_family(ctx, "C04", extra=["--modes", "disp,par,seq,tlonly,disp", "--ptl", 0.1], mc=("tl", "batch"),
                 mc_thorough=("flat2", "deps", "batchseq"))
 
 
 def check_C05(ctx):
     exec_family(ctx, "C05", nopar=True, mc=("flat", "batchseq"), mc_thorough=("flat2", "deps", "tl", "batch"))
+    exec_s2i(ctx, "C05", modes='{"par"}' if ctx.quick() else '{"par", "seq"}', maxforce=1500 if ctx.quick() else 30000)
 
 
 def check_C07(ctx):
@@ -337,8 +375,23 @@ def check_C11(ctx):
 
 
 def check_C12(ctx):
-    exec_family(ctx, "C12", extra=["--ptl", 0.2, "--modes", "disp,disp,tlonly,seq"], mc=("tl",))
+    # InvC04x belongs here too: a thread-local system that is silently not run violates "run ... in registration order"
+    exec_family(ctx, "C12", extra=["--ptl", 0.2, "--modes", "disp,disp,tlonly,seq", "--pnest", 0.06], mc=("tl",))
     exec_scenarios(ctx, TRACE_INVS["C12"], KF1_PROGS, "thread-local system inside a batch")
+    # async dispatcher: thread-local systems only inside wait(), on the caller, every wait
+    out = ctx.fresh("as", "ndjson")
+    st = run_bin(ctx, "exec", ["async", "--seed", ctx.seed * 1000 + 7, "--count", 50 if ctx.quick() else 500, "--calls", 12,
+                               "--ptl", 0.3, "--out", out], timeout=1800)
+    ctx.cov["impl_runs"].append({"kind": "impl->spec async dispatcher sessions with thread-local systems", "programs": st["programs"],
+                                 "calls": st["calls"], "events": st["events"]})
+    ctx.cov["traces_validated_against_impl"] += st["programs"]
+    validate_blocks(ctx, "ShredTrace", out, ["InvC12", "InvC12s"], classify=classify_block)
+    # try_into_sendable: exactly when there is no thread-local system; preserves the plan
+    out = ctx.fresh("snd", "ndjson")
+    st = run_bin(ctx, "planner", ["sendable", "--seed", ctx.seed, "--count", 200 if ctx.quick() else 3000, "--out", out])
+    ctx.cov["impl_runs"].append({"kind": "impl->spec try_into_sendable conversions", "programs": st["programs"]})
+    ctx.cov["traces_validated_against_impl"] += st["programs"]
+    validate_blocks(ctx, "ShredTrace", out, ["InvC12s", "InvStruct"], classify=classify_block)
 
 
 def check_C13(ctx):
@@ -379,6 +432,7 @@ def check_C13(ctx):
 def check_C14(ctx):
     exec_family(ctx, "C14", extra=["--ppanic", 0.6, "--modes", "disp,par,seq,disp", "--ptl", 0.15, "--dispatches", 4], mc=("flat", "tl"),
                 mc_thorough=("flat2", "batch", "deps"))
+    exec_s2i(ctx, "C14", panics=1, times="{3}" if ctx.quick() else "{1,3}", maxforce=1500 if ctx.quick() else 20000)
 
 
 def check_C15(ctx):
